@@ -262,6 +262,69 @@ theorem atoms_model_roundtrip_xml (fac : String → K) (a : AtomsM K) (hw : a.Wf
   intro p hp
   simp only [propTwo, rescale_self fac _ (hf p hp)]
 
+theorem mem_of_lookup {α : Type} (l : List (String × α)) (k : String) (v : α) (h : l.lookup k = some v) : (k, v) ∈ l := by
+  induction l with
+  | nil => simp [List.lookup] at h
+  | cons a l ih =>
+    obtain ⟨k', v'⟩ := a
+    simp only [List.lookup] at h
+    cases hk : (k == k') with
+    | true =>
+      simp only [hk, Option.some.injEq] at h
+      have : k = k' := by simpa using hk
+      subst this; subst h; simp
+    | false =>
+      simp only [hk] at h
+      exact List.mem_cons_of_mem _ (ih h)
+
+
+/-- the selected property `e = (name, unit)` after writing under `fac1` and reading under `fac2`. -/
+def selTwo (fac1 fac2 : String → K) (a : AtomsM K) (e : String × Option String) : String × Arr K :=
+  match a.props.lookup e.1 with
+  | some arr => (e.1, ⟨arr.shape, arr.data.rescale fac1 fac2 (effUnit e.1 e.2)⟩)
+  | none => (e.1, ⟨[], .flt []⟩)
+
+/-- **any selection of properties, in any order** (`Atoms.model(prop_unit=pu)` / `prop_name=`, `unit=`): reading the
+    model is the same as constructing `Atoms(natoms=…, prop=…)` from the selected, converted properties (so a
+    missing `atype` / `pos` gets the constructor's default, `atype`, `pos` come first). -/
+theorem atoms_model_select (fac1 fac2 : String → K) (a : AtomsM K) (hw : a.Wf) (pu : List (String × Option String))
+    (hnd : (pu.map Prod.fst).Nodup) (hmem : ∀ e ∈ pu, ∃ arr, a.props.lookup e.1 = some arr)
+    (hs : ∀ e ∈ pu, ∀ arr l, a.props.lookup e.1 = some arr → arr.data = .str l → effUnit e.1 e.2 = none) :
+    ∃ t, atomsModel fac1 pu a = some t ∧
+      atomsRead fac2 t = atomsOfProps a.natoms (pu.map (selTwo fac1 fac2 a)) := by
+  obtain ⟨ps, hps, hfa⟩ := mapOpt_exists (propModel fac1 a)
+    (fun e t => propRead fac2 t = some (selTwo fac1 fac2 a e)) pu
+    (fun e he => by
+      obtain ⟨arr, harr⟩ := hmem e he
+      obtain ⟨_, h2, h3⟩ := hw.ok (e.1, arr) (mem_of_lookup _ _ _ harr)
+      obtain ⟨t, ht1, ht2⟩ := valueUnit_model_two fac1 fac2 (effUnit e.1 e.2) arr h2 h3 (fun l hl => hs e he arr l harr hl)
+      refine ⟨DM.node [("name", DM.leaf (Sc.str e.1)), ("data", t)], by simp only [propModel, harr, ht1], ?_⟩
+      simp [propRead, DM.getStr?, DM.get?, List.lookup, ht2, selTwo, harr])
+  refine ⟨DM.node [("atoms", DM.node (("natoms", DM.leaf (Sc.int a.natoms)) :: appendAll "property" ps))],
+    by simp only [atomsModel, hps], ?_⟩
+  have hread := mapOpt_forall2 (propRead fac2) id (pu.map (selTwo fac1 fac2 a)) ps
+    (by
+      have : List.Forall₂ (fun x y => propRead fac2 y = some (id x)) (pu.map (selTwo fac1 fac2 a)) ps :=
+        List.forall₂_map_left_iff.mpr (by simpa using hfa)
+      exact this)
+  have hfst : (pu.map (selTwo fac1 fac2 a)).map Prod.fst = pu.map Prod.fst := by
+    simp only [List.map_map]
+    apply List.map_congr_left
+    intro e _
+    simp only [Function.comp, selTwo]
+    split <;> rfl
+  have hfold := foldl_dictSet [] (pu.map (selTwo fac1 fac2 a)) (by simpa [hfst] using hnd)
+  have hnl : ∀ x ∈ ps, x.isList = false := by
+    intro x hx
+    obtain ⟨e, _, he⟩ := forall2_right_mem _ _ _ hfa x hx
+    cases x <;> simp_all [propRead, DM.getStr?, DM.get?, DM.isList]
+  have hl : (DM.node (("natoms", DM.leaf (Sc.int (a.natoms : Int))) :: appendAll "property" ps)).aslist "property" = ps :=
+    aslist_of_lookup _ _ _ (by simp [List.lookup]) hnl
+  simp only [List.map_id] at hread
+  simp only [atomsRead, DM.get?, List.lookup]
+  simp [hl, hread, hfold, List.lookup]
+
+
 /-- with no unit on a property nothing changes at all: `castU none` is the identity. -/
 theorem castU_none (d : Data K) : d.castU none = d := by cases d <;> rfl
 
